@@ -1,2 +1,3 @@
+@property
 def spec(self):
     return self.get_cell(self.__connection_name, self.__neuron_name)
